@@ -26,6 +26,10 @@ RULE = ('Sequential part (enumerated completely): every public builder method {b
         'distinct combination / schedule.')
 ASSUMPTIONS = ['the set of public methods is taken from the class at run time (dir(FileBuilder) minus build/build_versioned/clean)']
 
+class Abort(BaseException):
+    """User code may also end with a BaseException that is not an Exception (KeyboardInterrupt, SystemExit, ...)."""
+
+
 QUERIES = ['read_text', 'read_binary', 'declare_read', 'list_dir', 'walk', 'is_file', 'is_dir', 'exists', 'get_size']
 METHODS = ['build_file', 'build_file_with_comparison', 'subbuild'] + QUERIES
 OWNERS = ['root', 'sub', 'file', 'nested']
@@ -86,6 +90,8 @@ def run_once(combo, with_stale_call):
         def finish(kind):
             if owner == kind and outcome == 'raised':
                 raise UserError(kind)
+            if owner == kind and outcome == 'base_exception':
+                raise Abort(kind)
 
         def nested_fn(b):
             log.append('nested')
@@ -133,6 +139,8 @@ def run_once(combo, with_stale_call):
             res['outcome'] = ('ok', FileBuilder.build(cache, 'c17', root))
         except UserError:
             res['outcome'] = ('exc', 'UserError')
+        except Abort:
+            res['outcome'] = ('exc', 'Abort')
         if with_stale_call and (timing == 'after_build' or owner == 'root'):
             stale_call(stash[owner])
         res['stale'] = stale.get('result')
@@ -149,6 +157,8 @@ def run_once(combo, with_stale_call):
             res['outcome2'] = ('ok', FileBuilder.build(cache, 'c17', root))
         except UserError:
             res['outcome2'] = ('exc', 'UserError')
+        except Abort:
+            res['outcome2'] = ('exc', 'Abort')
         res['log2'] = list(log)
         return res
     finally:
@@ -177,10 +187,12 @@ def check_combo(combo):
 
 
 def all_combos():
-    for method, owner, outcome, timing, target in itertools.product(METHODS, OWNERS, ['returned', 'raised'],
+    for method, owner, outcome, timing, target in itertools.product(METHODS, OWNERS, ['returned', 'raised', 'base_exception'],
                                                                     ['same_build', 'after_build'], TARGETS):
         if owner == 'root' and timing == 'same_build':
             continue            # the root builder only finishes when build returns
+        if outcome == 'base_exception' and timing == 'same_build':
+            continue            # nobody catches the BaseException: it ends the whole build
         if method == 'subbuild' and target != 'input':
             continue            # subbuild takes no path
         yield (method, owner, outcome, timing, target)
@@ -239,6 +251,25 @@ def race_once(method, owner, spec):
                 info['straggler'] = (type(e).__name__, str(e)[:80])
 
         S = [None]
+        # observe appends to a closed record at the moment they happen: every ComplexOperation gets a list that knows it
+        import file_builder.operation as op_mod
+
+        class WatchedList(list):
+            owner_op = None
+
+            def append(self, x):
+                if self.owner_op is not None and self.owner_op.is_finished:
+                    info['appended_after_close'] = True
+                list.append(self, x)
+        orig_init = op_mod.ComplexOperation.__init__
+
+        def watched_init(self, func_name, args, kwargs, suboperations, *rest):
+            if type(suboperations) is list:
+                w = WatchedList(suboperations)
+                w.owner_op = self
+                suboperations = w
+            orig_init(self, func_name, args, kwargs, suboperations, *rest)
+        op_mod.ComplexOperation.__init__ = watched_init
         # observe appends to a record that was already closed before the call (must raise, never attach)
         orig_append = FileBuilder._append_suboperation
 
@@ -296,6 +327,7 @@ def race_once(method, owner, spec):
             info['outcome'] = ('exc', type(e).__name__ + ': ' + str(e)[:80])
         sched.disable()
         FileBuilder._append_suboperation = orig_append
+        op_mod.ComplexOperation.__init__ = orig_init
         info['late_file'] = os.path.exists(late_out)
         info['tmp'] = sb.tmp_listing()
         if os.path.isfile(cache):
@@ -359,6 +391,7 @@ def race_once(method, owner, spec):
         sched.disable()
         try:
             FileBuilder._append_suboperation = orig_append
+            op_mod.ComplexOperation.__init__ = orig_init
         except NameError:
             pass
         sb.close()
